@@ -364,7 +364,6 @@ func c10AcceptLoop(e *Env, srv string) {
 	if f == nil {
 		return
 	}
-	lb := loopBlocks(f)
 	var acc *ssa.Call
 	core.Instrs(f, func(in ssa.Instruction) {
 		if c, ok := in.(*ssa.Call); ok && c.Call.IsInvoke() && c.Call.Method.Name() == "AcceptWithContext" {
@@ -375,8 +374,23 @@ func c10AcceptLoop(e *Env, srv string) {
 		e.R.Fail(rule, srv+".Serve:accept", e.fpos(f), "no accept call")
 		return
 	}
+	// the accept loop: in Serve itself or in the helper (analysed as part of Serve) it was moved to
+	var accCall ssa.Value = acc
+	if h := acc.Parent(); h != f {
+		if len(loopBlocks(h)) > 0 {
+			f = h // the whole loop was moved
+		} else {
+			// only the accept step was moved: the loop is Serve's, the accepted connection is what the helper hands back
+			core.InstrsOwn(f, func(in ssa.Instruction) {
+				if c, ok := in.(*ssa.Call); ok && core.SameFunc(core.StaticFn(c), h) {
+					accCall = c
+				}
+			})
+		}
+	}
+	lb := loopBlocks(f)
 	var rw ssa.Value
-	for _, ref := range core.Referrers(acc) {
+	for _, ref := range core.Referrers(accCall) {
 		if ex, ok := ref.(*ssa.Extract); ok && ex.Index == 0 {
 			rw = ex
 		}
